@@ -23,7 +23,7 @@ from py2lean import Env, Tx, Unsupported, find_def, guards, translate_function
 from translate import HEADER, parse, write_if_changed
 
 FRAME_NAMES = {"check_dims", "gather_dimensions", "reduce_dims", "preserve_dims", "specified_dims",
-               "broadcast_and_match_nan"}
+               "broadcast_and_match_nan", "_match_nan_per_variable"}
 
 
 class Rewrite(ast.NodeTransformer):
@@ -207,7 +207,8 @@ def generate():
             fn = find_def(stree, pyname)
             stmts = [s for s in fn.body if isinstance(s, ast.Assign) and isinstance(s.targets[0], ast.Name)
                      and s.targets[0].id in (target,) + tuple(pre)]
-            weighting = [ast.unparse(s) for s in fn.body if mentions_apply_weights(s) or "broadcast_and_match_nan" in names_in(s)]
+            weighting = [ast.unparse(s) for s in fn.body if mentions_apply_weights(s) or "broadcast_and_match_nan" in names_in(s)
+                         or "_match_nan_per_variable" in names_in(s)]
             emit(leanname, params, translate_function(synth([s for s in stmts if s.targets[0].id == target],
                                                             ast.Name(id=target, ctx=ast.Load())), env_of(**params)))
             out.append(f"def {leanname}_frame : List String := {lean_strs(weighting)}\n")
@@ -218,6 +219,20 @@ def generate():
 
     ratio("multiplicative_bias", "multiplicative_bias_ratio", "multi_bias", {"mean_fcst": "fl", "mean_obs": "fl"})
     ratio("pbias", "pbias_ratio", "_pbias", {"mean_error": "fl", "mean_obs": "fl"})
+
+    def g_match_nan():
+        """`_match_nan_per_variable`: after `xr.broadcast` everything is element-wise (and, for Datasets, per variable)"""
+        fn = find_def(stree, "_match_nan_per_variable")
+        body = [s for s in fn.body if not (isinstance(s, ast.Expr) and isinstance(s.value, ast.Constant))]
+        if not (isinstance(body[0], ast.Assign) and ast.unparse(body[0].value) == "xr.broadcast(fcst, obs)"
+                and ast.unparse(body[0].targets[0]) in ("(fcst, obs)", "fcst, obs")):
+            raise Unsupported("first statement is not `fcst, obs = xr.broadcast(fcst, obs)`")
+        ret = body[-1].value
+        if not (isinstance(ret, ast.Tuple) and len(ret.elts) == 2):
+            raise Unsupported("does not return the pair (fcst, obs)")
+        emit("match_nan_fcst", {"fcst": "fl", "obs": "fl"}, translate_function(synth(body[1:-1], ret.elts[0]), env_of(fcst="fl", obs="fl")))
+        emit("match_nan_obs", {"fcst": "fl", "obs": "fl"}, translate_function(synth(body[1:-1], ret.elts[1]), env_of(fcst="fl", obs="fl")))
+    attempt("match_nan", g_match_nan)
 
     def g_pbias_error():
         fn = find_def(stree, "pbias")
